@@ -12,6 +12,7 @@ import (
 
 	"github.com/vbauerster/mpb/v8/cwriter"
 	"github.com/vbauerster/mpb/v8/decor"
+	"github.com/vbauerster/mpb/v8/internal"
 )
 
 const defaultRefreshRate = 150 * time.Millisecond
@@ -239,6 +240,7 @@ func (p *Progress) Wait() {
 // instance. Normally this method shouldn't be called unless you know what you
 // are doing. Proper way to shutdown is to call `(*Progress).Wait()` instead.
 func (p *Progress) Shutdown() {
+	internal.Gate("pw:cancel", p)
 	p.cancel()
 	p.pwg.Wait()
 }
@@ -280,6 +282,7 @@ func (p *Progress) serve(s *pState, cw *cwriter.Writer) {
 						}
 					}
 				}()
+				internal.Gate("ct:pcancel", p)
 				p.cancel() // cancel all bars
 				renderReq = nil
 				operateState = nil
@@ -310,8 +313,10 @@ func (s *pState) autoRefreshListener(done chan struct{}) {
 	for {
 		select {
 		case t := <-ticker.C:
+			internal.Gate("ls:tick", s)
 			s.renderReq <- t
 		case <-s.ctx.Done():
+			internal.Gate("ls:done", s)
 			close(done)
 			return
 		}
@@ -322,12 +327,14 @@ func (s *pState) manualRefreshListener(done chan struct{}) {
 	for {
 		select {
 		case x := <-s.manualRC:
+			internal.Gate("ls:tick", s)
 			if t, ok := x.(time.Time); ok {
 				s.renderReq <- t
 			} else {
 				s.renderReq <- time.Now()
 			}
 		case <-s.ctx.Done():
+			internal.Gate("ls:done", s)
 			close(done)
 			return
 		}
@@ -343,6 +350,7 @@ func (s *pState) render(cw *cwriter.Writer) (err error) {
 	if cw.IsTerminal() {
 		width, height, err = cw.GetTermSize()
 		if err != nil {
+			internal.Gate("ct:drop", s)
 			close(s.iterDrop)
 			return err
 		}
@@ -369,6 +377,7 @@ func (s *pState) flush(cw *cwriter.Writer, height int, iter <-chan *Bar) error {
 	for b := range iter {
 		frame := <-b.frameCh
 		if frame.err != nil {
+			internal.Gate("ct:drop", s)
 			close(s.iterDrop)
 			b.cancel()
 			return frame.err // b.frameCh is buffered it's ok to return here
@@ -385,6 +394,7 @@ func (s *pState) flush(cw *cwriter.Writer, height int, iter <-chan *Bar) error {
 
 		switch frame.shutdown {
 		case 1:
+			internal.Gate("ct:cancelbar", b)
 			b.cancel()
 			if qb, ok := s.queueBars[b]; ok {
 				delete(s.queueBars, b)
@@ -415,6 +425,7 @@ func (s *pState) flush(cw *cwriter.Writer, height int, iter <-chan *Bar) error {
 		}
 	}
 
+	internal.Gate("ct:flush", len(rows), popCount)
 	return cw.Flush(len(rows) - popCount)
 }
 
